@@ -115,6 +115,19 @@ type corpusClassEntry struct {
 	Date  int64             `json:"date"`
 	Conf  []string          `json:"conf,omitempty"` // real configurable lints with a verdict (not NA/NE) on this object
 	Find  []string          `json:"find,omitempty"` // real lints with a finding (info or worse) on this object
+	Clk   []string          `json:"clk,omitempty"`  // the two clock-reading lints, where they give a verdict (pass or worse) on this object
+}
+
+// clockExempt: the two lints C05 exempts ("compare host names with today's TLD table").
+var clockExempt = map[string]bool{"w_sub_cert_aia_contains_internal_names": true, "w_smime_aia_contains_internal_names": true}
+
+// indexHash keys cached indexes: workers of the fine-grain build share the plain harness's
+// (the plan generator must draw from the same index in both).
+func indexHash() string {
+	if h := os.Getenv("ZSIM_REF_BINHASH"); h != "" {
+		return h
+	}
+	return binHash()
 }
 
 var corpusClassMemo []corpusClassEntry
@@ -131,7 +144,7 @@ func corpusClassIndex() []corpusClassEntry {
 			fmt.Fprintf(&sb, "%s:%d:%d;", n, st.Size(), st.ModTime().UnixNano())
 		}
 	}
-	path := filepath.Join(verifRoot(), "work", "corpus-index3-"+shortHash(sb.String()+binHash())+".json")
+	path := filepath.Join(verifRoot(), "work", "corpus-index4-"+shortHash(sb.String()+indexHash())+".json")
 	if b, err := os.ReadFile(path); err == nil {
 		var out []corpusClassEntry
 		if json.Unmarshal(b, &out) == nil && len(out) > 0 {
@@ -155,6 +168,7 @@ func corpusClassIndex() []corpusClassEntry {
 		}
 		e.Conf = verdictConfigurables(p)
 		e.Find = findingLints(p)
+		e.Clk = verdictOf(p, clockExempt)
 		out = append(out, e)
 	}
 	b, _ := json.Marshal(out)
@@ -162,6 +176,13 @@ func corpusClassIndex() []corpusClassEntry {
 	tmp := fmt.Sprintf("%s.%d.tmp", path, os.Getpid())
 	if os.WriteFile(tmp, b, 0o644) == nil {
 		os.Rename(tmp, path)
+		if old, _ := filepath.Glob(filepath.Join(filepath.Dir(path), "corpus-index*.json")); len(old) > 0 {
+			for _, f := range old {
+				if f != path {
+					os.Remove(f) // index of an earlier binary
+				}
+			}
+		}
 	}
 	corpusClassMemo = out
 	return out
@@ -196,6 +217,23 @@ func verdictConfigurables(p *Parsed) (out []string) {
 				if r := l.Execute(p.OCSP, cfg); r != nil && r.Status >= lint.Pass {
 					out = append(out, l.Name)
 				}
+			}
+		}
+	}
+	return out
+}
+
+// verdictOf lists those of the named certificate lints that give a verdict (pass or worse) on the object.
+func verdictOf(p *Parsed, names map[string]bool) (out []string) {
+	defer func() { recover() }()
+	if p.Kind != KCert {
+		return nil
+	}
+	cfg := lint.NewEmptyConfig()
+	for _, l := range lint.GlobalRegistry().CertificateLints().Lints() {
+		if names[l.Name] {
+			if r := l.Execute(p.Cert, cfg); r != nil && r.Status >= lint.Pass {
+				out = append(out, l.Name)
 			}
 		}
 	}
